@@ -104,7 +104,8 @@ def sigma_strings(maxlen, sigma=SIGMA7):
     for n in range(maxlen + 1):
         for tup in product(sigma, repeat=n):
             out.append("".join(tup))
-    return out
+    # canonically equivalent but distinct code point sequences (normalisation must not be applied to values)
+    return out + ["e\u0301", "\u00e9", "\u212b", "\u00c5"]
 
 
 def string_position_terms(L, cap):
@@ -340,3 +341,123 @@ def generic_strings(ctx, bk, maxlen):
     strs = sigma_strings(maxlen)
     ctx.pmap(_generic_string_unit, [(bk.name, strs[i::32]) for i in range(32)])
     return len(strs)
+
+
+# ---------------------------------------------------------------- pumped towers (deep nesting, long lists)
+def _to_bool(t, ty):
+    if ty == typed.B:
+        return t
+    if ty == typed.I:
+        return T.binop("Gt", t, T.Int(0))
+    if ty == typed.R:
+        return T.binop("LtE", t, T.Flt("0.5"))
+    if ty == typed.S:
+        return T.binop("NotEq", t, T.Str("a"))
+    return None
+
+
+def deep_terms(cap, depths=(4, 6, 8)):
+    """pumped cycles of the typed grammar: every self-composable constructor (one whose result type is also one of its argument
+    types) stacked `depth` times, every ordered PAIR of such constructors alternated, on the left spine and on the right spine;
+    plus `in` lists with 6 and 10 elements and 6-fold and/or chains.  Bool-typed results are used as filters directly, others
+    through a comparison."""
+    sigs = [s_ for s_ in typed.signatures(cap) if s_.ret in s_.args and s_.ret in (typed.I, typed.R, typed.S, typed.B)]
+    leaves = typed.leaves_for(cap)
+    default = {typed.I: typed.F("n"), typed.R: typed.F("x"), typed.S: typed.F("s"), typed.B: T.binop("Gt", typed.F("n"), T.Int(0)),
+               typed.LI: leaves[typed.LI][0], typed.LS: leaves[typed.LS][0], typed.TT: typed.F("d"), "RX": T.Str("^a"), typed.BV: typed.F("b"),
+               typed.NOW: T.call("now"), typed.D: ("Date", "2020-02-29"), typed.TM: ("Time", "23:59:59"), "BLIT": T.Bool(True), "BF": T.call("contains", typed.F("s"), T.Str("a"))}
+    other = {typed.I: T.Int(1), typed.R: T.Flt("0.5"), typed.S: T.Str("a"), typed.B: T.binop("Eq", typed.F("m"), T.Int(1))}
+
+    def apply(sig, inner, spine):
+        idxs = [i for i, a in enumerate(sig.args) if a == sig.ret]
+        pos = idxs[0] if spine == "left" else idxs[-1]
+        args = []
+        for i, a in enumerate(sig.args):
+            if i == pos:
+                args.append(inner)
+            elif a == sig.ret:
+                args.append(other[a])
+            elif a in default:
+                args.append(default[a])
+            else:
+                return None
+        return sig.build(*args)
+
+    out = []
+    by_ty = {}
+    for s_ in sigs:
+        by_ty.setdefault(s_.ret, []).append(s_)
+    for ty, group in by_ty.items():
+        pairs = [(a, a) for a in group] + [(a, b) for a in group for b in group if a is not b]
+        for a, b in pairs:
+            for depth in depths:
+                for spine in ("left", "right"):
+                    t = default[ty]
+                    ok = True
+                    for lvl in range(depth):
+                        t = apply(a if lvl % 2 == 0 else b, t, spine)
+                        if t is None:
+                            ok = False
+                            break
+                    if ok:
+                        bt = _to_bool(t, ty)
+                        if bt is not None:
+                            out.append(bt)
+    n, s_f = typed.F("n"), typed.F("s")
+    out.append(T.binop("In", n, T.lst(*[T.Int(v) for v in (5, 7, 9, 11, 3, 13)])))
+    out.append(T.binop("In", n, T.lst(*[T.Int(v) for v in (5, 7, 9, 11, 13, 15, 17, 19, 21, 1)])))
+    out.append(T.binop("In", s_f, T.lst(*[T.Str(v) for v in ("q", "w", "e", "r", "t", "ab", "y")])))
+    # very long in-lists with a domain value at the head / in the middle / at the very end (chunking, bind budgets)
+    for size in (500, 501, 1000, 1001, 1500, 2501):
+        filler = [T.Int(v) for v in range(100, 100 + size - 1)]
+        out.append(T.binop("In", n, T.lst(*(filler + [T.Int(3)]))))
+        out.append(T.binop("In", n, T.lst(*([T.Int(1)] + filler))))
+        out.append(T.unop("Not", T.binop("In", n, T.lst(*(filler[:size // 2] + [T.Int(-2)] + filler[size // 2:size - 1])))))
+    out.append(T.binop("In", s_f, T.lst(*([T.Str("w%d" % i) for i in range(1000)] + [T.Str("ab")]))))
+    # bushy trees: op3( outer( inner(a, b), inner(c, d) ) ) - both operands of `outer` are compound (4+ operators)
+    m_, x_ = typed.F("m"), typed.F("x")
+    arith = [s_ for s_ in sigs if s_.ret == typed.I and len(s_.args) == 2 and s_.args == (typed.I, typed.I)]
+    for inner in arith:
+        for outer in arith:
+            core = outer.build(inner.build(n, T.Int(1)), inner.build(m_, T.Int(3)))
+            for op3 in arith:
+                out.append(T.binop("Eq", op3.build(T.Int(3), core), n))
+                out.append(T.binop("Lt", op3.build(core, T.Int(-2)), m_))
+    p1, p2, p3, p4 = T.binop("Eq", n, T.Int(1)), T.binop("Gt", m_, T.Int(0)), T.binop("Lt", n, T.Int(3)), T.binop("NotEq", m_, T.Int(1))
+    for inner in ("And", "Or"):
+        for outer in ("And", "Or"):
+            core = T.binop(outer, T.binop(inner, p1, p2), T.binop(inner, p3, p4))
+            out += [T.unop("Not", core), T.binop("And", T.binop("Eq", n, m_), core), T.binop("Or", core, T.binop("Eq", n, m_)),
+                    T.binop("And", core, T.unop("Not", core)), T.unop("Not", T.binop("Or", T.unop("Not", core), p1))]
+    chain = T.binop("Eq", n, T.Int(0))
+    for v in (1, 3, -2, 5, 7, 9):
+        chain = T.binop("Or", chain, T.binop("Eq", n, T.Int(v)))
+    out.append(chain)
+    chain = T.binop("NotEq", n, T.Int(0))
+    for v in (1, 3, -2, 5, 7, 9):
+        chain = T.binop("And", T.binop("NotEq", typed.F("m"), T.Int(v)), chain)
+    out.append(chain)
+    seen, uniq = set(), []
+    for t in out:
+        if t not in seen:
+            seen.add(t)
+            uniq.append(t)
+    return uniq
+
+
+def _deep_unit(unit):
+    bname, terms = unit
+    bk = _BK[bname]
+    acc = Acc()
+    for t in terms:
+        check_term_generic(acc, bk, t, styles=("min", "full"))
+    if terms:
+        acc.sample({"filter": to_odata(terms[0]), "layer": "pumped towers"}, cap=1)
+    return acc
+
+
+def deep_layer(ctx, bk, depths=(4, 6, 8)):
+    _BK[bk.name] = bk
+    terms = deep_terms(bk.cap, depths)
+    ctx.pmap(_deep_unit, [(bk.name, terms[i::48]) for i in range(48) if terms[i::48]])
+    return len(terms)
